@@ -550,6 +550,16 @@ class Cmp(object):
             return False
         return True
 
+    def digits(self, clause, tok, exact, rel, what=""):
+        """the file DECLARES this value (a grid step, a cutoff): the printed number must determine it to `rel`, not merely be
+        consistent with it at whatever precision it happens to be printed"""
+        try:
+            v = F(float(tok.lower().replace("d", "e")))
+        except ValueError:
+            return
+        if abs(v - F(exact)) > F(rel) * max(abs(F(exact)), F(1, 10 ** 6)):
+            self.fail(clause, "%s printed as %s, specification says %s (= %.12g): digits are lost" % (what, tok.strip(), exact, float(exact)))
+
     def cells_of(self, clause, toks, group, what):
         """a group of the plan against the printed tokens of that group"""
         ctx = self.ctx
@@ -612,6 +622,9 @@ def cmp_lammps(c, plan, text):
         if len(b["rows"]) != rows["n"]:
             c.fail("row-count", "block %s has %d rows, specification says %d" % (b["title"], len(b["rows"]), rows["n"]))
             continue
+        if b["rows"] and (float(b["lo"]) != float(b["rows"][0][1]) or float(b["hi"]) != float(b["rows"][-1][1])):
+            # the header's R lo hi and the first / last row are the same separations, printed by the same writer
+            c.fail("header-body", "block %s: header R %s %s, first row at %s, last row at %s" % (b["title"], b["lo"], b["hi"], b["rows"][0][1], b["rows"][-1][1]))
         p = probe(rows["fn"])
         d1 = p.deriv()
         numeric = ctx.flavour == "numeric"
@@ -638,6 +651,8 @@ def cmp_dlpoly(c, plan, text):
         c.fail("header-ngrid", "ngrid=%d, specification says %d" % (t["ngrid"], hdr["ngrid"]))
     c.num("header-delpot", t["delpot"], ctx.cutoff / hdr["delden"], what="delpot")
     c.num("header-cutpot", t["cutpot"], ctx.cutoff, what="cutpot")
+    c.digits("header-delpot", t["delpot"], ctx.cutoff / hdr["delden"], F(1, 10 ** 7), what="delpot")      # the consumer computes every r from it
+    c.digits("header-cutpot", t["cutpot"], ctx.cutoff, F(1, 10 ** 7), what="cutpot")
     exp = [plan[i:i + 3] for i in range(2, len(plan), 3)]
     if len(exp) != len(t["blocks"]):
         c.fail("one-block-per-potential", "%d blocks in file, %d potentials in model" % (len(t["blocks"]), len(exp)))
@@ -743,6 +758,8 @@ def cmp_setfl(c, plan, text, kind, cases_index):
         return
     c.num("grid-line", f["drho"], ctx.drho(), what="drho")
     c.num("grid-line", f["dr"], ctx.dr(), what="dr")
+    c.digits("grid-line", f["drho"], ctx.drho(), F(1, 10 ** 11), what="drho")
+    c.digits("grid-line", f["dr"], ctx.dr(), F(1, 10 ** 11), what="dr")
     if kind == "fs" and c.route in ("class", "ini", "cli"):
         # C04's second formulation (densities of a cluster by the consumer's rules): the consumer counts neighbours up to the header's
         # cutoff, so it must span the tabulated separations (the writers use nr*dr unless the caller passes a value)
